@@ -7,6 +7,7 @@ namespace c18
     if(cfg.space == "l1") { run_case<TetraMesh, TagL1>(op, cfg, c, o); return true; }
     if(cfg.space == "l2") { run_case<TetraMesh, TagL2>(op, cfg, c, o); return true; }
     if(cfg.space == "d0") { run_case<TetraMesh, TagD0>(op, cfg, c, o); return true; }
+    if(cfg.space == "cr") { run_case<TetraMesh, TagCR>(op, cfg, c, o); return true; }
     return false;
   }
 }
